@@ -33,20 +33,30 @@ package boltdb
 //@   ensures result != nil
 //@ assume func bbolt.Bucket.Get(b, key)
 //@   requires b != nil
+// failed: some operation of the current batch (a merge, a put or a delete) reported failure
+//@ ghostvar failed bool
 //@ assume func bbolt.Bucket.Put(b, key, value)
 //@   requires b != nil
+//@   modifies failed
+//@   ensures failed == (old(failed) || result != nil)
 //@ assume func bbolt.Bucket.Delete(b, key)
 //@   requires b != nil
+//@   modifies failed
+//@   ensures failed == (old(failed) || result != nil)
 //@ assume func store.MergeOperator.FullMerge(mo, key, existingValue, operands)
 //@   requires mo != nil
+//@   modifies failed
+//@   ensures failed == (old(failed) || !result1)
 
 //@ func Writer.ExecuteBatch
 //@   props C15
 //@   mode int
-//@   requires w != nil && w.store != nil && w.store.db != nil && w.store.mo != nil && openTx >= 0 && openTx < 1000000 && commits >= 0 && commits < 1000000
+//@   requires w != nil && w.store != nil && w.store.db != nil && w.store.mo != nil && !failed && openTx >= 0 && openTx < 1000000 && commits >= 0 && commits < 1000000
 //@   requires implies(typeis(batch, *store.EmulatedBatch), batch.(*store.EmulatedBatch) != nil && batch.(*store.EmulatedBatch).Merger != nil && forall(k, 0, len(batch.(*store.EmulatedBatch).Ops), batch.(*store.EmulatedBatch).Ops[k] != nil))
-//@   modifies openTx, commits, bbolt.Tx.open, bbolt.Bucket.FillPercent
+//@   modifies failed, openTx, commits, bbolt.Tx.open, bbolt.Bucket.FillPercent
 //@   ensures openTx == old(openTx)
 //@   ensures implies(err == nil, commits == old(commits) + 1) && implies(err != nil, commits == old(commits))
-//@   loop 0: invariant tx != nil && tx.open && bucket != nil && err == nil && openTx == old(openTx) + 1 && commits == old(commits) && w.store != nil && w.store.mo != nil
-//@   loop 1: invariant tx != nil && tx.open && bucket != nil && err == nil && openTx == old(openTx) + 1 && commits == old(commits)
+// a batch with a failed operation is never committed and never reported as a success
+//@   ensures implies(failed, err != nil)
+//@   loop 0: invariant !failed && tx != nil && tx.open && bucket != nil && err == nil && openTx == old(openTx) + 1 && commits == old(commits) && w.store != nil && w.store.mo != nil
+//@   loop 1: invariant !failed && tx != nil && tx.open && bucket != nil && err == nil && openTx == old(openTx) + 1 && commits == old(commits)
